@@ -742,13 +742,15 @@ def config_inputs(rng, count):
         maxnodes, poll, hpc = rng.choice([0, 2, 5]), rng.choice([10, 30]), "slurm"
         groups = [{"name": g, "hpc": hpc, "maxnodes": maxnodes, "poll": poll, "wall": rng.choice([10, 60, 60, 1440, 1800, 2880])} for g in gnames]     # minutes; a day and more included
         jobs = []
+        hows = ["ctor", "ctor", "attr", "set", "attr-then-set"]
         for k, nm in enumerate(names):
             others = [x for x in names if x != nm]
             blk = sorted(rng.sample(others, rng.randint(0, len(others))))
             g = gnames[rng.randrange(len(gnames))]
             wall = next(x["wall"] for x in groups if x["name"] == g)
             jobs.append({"name": nm, "blk": blk, "grp": g, "est": rng.choice([0, 0, 1, wall]), "flag": rng.random() < 0.5,
-                         "intblk": auto and rng.random() < 0.5, "appn": rng.random() < 0.3, "appo": rng.random() < 0.3})
+                         "intblk": auto and rng.random() < 0.5, "appn": rng.random() < 0.3, "appo": rng.random() < 0.3,
+                         "how": hows[rng.randrange(len(hows))]})
         base = {"jobs": jobs, "groups": groups, "auto": auto,
                 "hooks": [rng.random() < 0.4 for _ in range(4)]}
         out.append(base)
@@ -806,7 +808,7 @@ def run_config(c):
     cfgrec = {"jobs": [{"name": (cjobs[0]["name"] if c.get("dupid") and i == 1 else j["name"]), "blk": j["blk"], "grp": j["grp"], "est": j["est"]}
                        for i, j in enumerate(cjobs)],
               "groups": [{k: g[k] for k in ("name", "hpc", "maxnodes", "poll", "wall")} for g in c["groups"]]}
-    rec = {"kind": "config", "cfg": cfgrec, "accepted": False, "error": "", "sbatch": 0, "dumped": False, "orig": [], "loaded": []}
+    rec = {"kind": "config", "cfg": cfgrec, "accepted": False, "error": "", "sbatch": 0, "dumped": False, "orig": [], "loaded": [], "mem": "skip"}
     base = mkbase()
     count = {"sbatch": 0}
     import contextlib
@@ -862,10 +864,19 @@ def run_config(c):
                 config.append_submission_group(SubmissionGroup(name=g["name"], submitter_params=sp))
             for j in c["jobs"]:
                 blk = [int(b) for b in j["blk"]] if j.get("intblk") else list(j["blk"])
-                config.add_job(GenericCommandParameters(
-                    name=(None if c["auto"] else j["name"]), command=f"echo {j['name']} 'x y'", blocked_by=blk,
+                how = j.get("how", "ctor")          # how the dependencies are given: constructor / attribute / setter
+                params = GenericCommandParameters(
+                    name=(None if c["auto"] else j["name"]), command=f"echo {j['name']} 'x y'", blocked_by=(blk if how == "ctor" else []),
                     cancel_on_blocking_job_failure=j["flag"], estimated_run_minutes=(j["est"] or None),
-                    submission_group=j["grp"], append_job_name=j["appn"], append_output_dir=j["appo"]))
+                    submission_group=j["grp"], append_job_name=j["appn"], append_output_dir=j["appo"])
+                if how == "attr":
+                    params.blocked_by = set(blk)
+                elif how == "attr-then-set":
+                    params.blocked_by = {"placeholder"}
+                    params.set_blocking_jobs(set(str(b) for b in blk))
+                elif how == "set":
+                    params.set_blocking_jobs(set(str(b) for b in blk))
+                config.add_job(params)
             rec["orig"] = proj(config)
             path = os.path.join(base, "config.json")
             config.dump(path)
@@ -884,6 +895,15 @@ def run_config(c):
             rec["dumped"] = True
             JobSubmitter.run_submit_jobs(loaded, os.path.join(base, "out"))
             rec["accepted"] = True
+            if not c.get("perm") and not c.get("dupid"):
+                # the configuration object itself (not only its reloaded copy) passes the checks a submitter runs
+                try:
+                    config.check_submission_groups()
+                    config.check_job_dependencies()
+                    config.check_job_runtimes()
+                    rec["mem"] = "ok"
+                except Exception as e:   # noqa
+                    rec["mem"] = type(e).__name__
         except (InvalidConfiguration, InvalidParameter) as e:
             rec["error"] = type(e).__name__
         except Exception as e:   # noqa
